@@ -150,6 +150,43 @@ static void dispatch(Ctx& ctx, uint64_t m, const CpuCfg& cfg) {
   ctx.end_case(true);
 }
 
+// tables with so many built-in buffers that the buffer area exceeds 4 GiB (the buffer index is a uint32_t and the byte offset of a buffer
+// is index * buf_size): buffers must be disjoint, buf_size apart, and a transform inside the last buffer must be the transform of ITS
+// content, leave buffer 0 alone and equal the transform in user memory.  The area is malloc'ed and only the touched buffers become resident.
+static void many_buffers(Ctx& ctx, int w, uint64_t m) {
+  static const char* WN[4] = {"reim_fft", "reim_ifft", "cplx_fft", "cplx_ifft"};
+  const uint64_t bs = (2 * m * 8 + 63) / 64 * 64, nb = (UINT64_C(1) << 32) / bs + 1;   // last index * buf_size >= 2^32
+  std::string id = sfmt("many-buffers|%s|m=%llu|num_buffers=%llu", WN[w], (unsigned long long)m, (unsigned long long)nb);
+  if (!ctx.want(id)) return;
+  ctx.begin_case(id);
+  void* t1 = w == 0 ? (void*)new_reim_fft_precomp(m, nb) : w == 1 ? (void*)new_reim_ifft_precomp(m, nb) : w == 2 ? (void*)new_cplx_fft_precomp(m, nb) : (void*)new_cplx_ifft_precomp(m, nb);
+  auto buf = [&](uint32_t i) { return w == 0 ? reim_fft_precomp_get_buffer((REIM_FFT_PRECOMP*)t1, i) : w == 1 ? reim_ifft_precomp_get_buffer((REIM_IFFT_PRECOMP*)t1, i)
+                                    : w == 2 ? (double*)cplx_fft_precomp_get_buffer((CPLX_FFT_PRECOMP*)t1, i) : (double*)cplx_ifft_precomp_get_buffer((CPLX_IFFT_PRECOMP*)t1, i); };
+  auto go = [&](double* d) { switch (w) { case 0: reim_fft((REIM_FFT_PRECOMP*)t1, d); break; case 1: reim_ifft((REIM_IFFT_PRECOMP*)t1, d); break; case 2: cplx_fft((CPLX_FFT_PRECOMP*)t1, d); break; default: cplx_ifft((CPLX_IFFT_PRECOMP*)t1, d); } };
+  std::string err;
+  double* b0 = buf(0);
+  for (uint64_t i : {(uint64_t)1, nb / 2, nb - 2, nb - 1}) {
+    if (i >= nb) continue;
+    ptrdiff_t d = (uint8_t*)buf((uint32_t)i) - (uint8_t*)b0;
+    if ((uint64_t)d != i * bs && err.empty()) err = sfmt("buffer %llu starts %lld bytes after buffer 0, expected %llu (buffers of %llu bytes)", (unsigned long long)i, (long long)d, (unsigned long long)(i * bs), (unsigned long long)bs);
+  }
+  if (err.empty()) {
+    std::vector<double> x(2 * m), y(2 * m);
+    Rng r(ctx.args.seed + m + w);
+    for (uint64_t i = 0; i < 2 * m; ++i) { x[i] = (r.unit() - 0.5) * 64; y[i] = (r.unit() - 0.5) * 64; }
+    double* bl = buf((uint32_t)(nb - 1));
+    memcpy(b0, x.data(), 2 * m * 8); memcpy(bl, y.data(), 2 * m * 8);
+    go(bl);
+    if (memcmp(b0, x.data(), 2 * m * 8)) err = "a transform inside the last buffer modified buffer 0";
+    GBuf u(2 * m * 8, 8); memcpy(u.p, y.data(), 2 * m * 8);
+    go(u.as<double>());
+    if (err.empty() && memcmp(u.p, bl, 2 * m * 8)) err = "the transform inside the last buffer is not the transform of its content (differs from the same transform in user memory)";
+  }
+  if (!err.empty()) ctx.violation(id, err);
+  free(t1);
+  ctx.end_case(true);
+}
+
 // oracle self-check: the binary128 FFT against direct evaluation (machinery, not a verdict)
 static void oracle_selfcheck() {
   for (uint64_t m : {1, 2, 4, 8, 32, 256}) {
@@ -188,9 +225,11 @@ int main(int argc, char** argv) {
     for (auto& c : cfgs(th)) items.push_back({2, m, 0, 0, 0, c});
     if (m == 1) break;
   }
+  for (uint64_t m : {65536, 1024, 8}) for (int w = 0; w < 4; ++w) { if (m == 1024 && !th) continue; items.push_back({3, m, w, 0, 0, CFG_NATIVE}); }
   ctx.parallel(items.size(), [&](uint64_t i) {
     const It& it = items[i];
     if (it.kind == 2) { dispatch(ctx, it.m, it.cfg); return; }
+    if (it.kind == 3) { many_buffers(ctx, it.impl, it.m); return; }
     static thread_local Tables* T = 0;
     if (!T || T->m != it.m) { delete T; T = new Tables(it.m); }
     Runner R(it.impl, it.m);
@@ -202,7 +241,7 @@ int main(int argc, char** argv) {
   Json ex = Json::obj();
   ex.set("max_m", mmax).set("all_impulses_up_to_m", all_imp);
   return ctx.finish("exploration",
-                    "every m = 1..max_m x 8 implementations x {all unit impulses (m <= bound) or sampled impulses, 2 constants, resonant vectors (all j for m<=256), dynamic range, 3 seeded dense}; dispatch API x cfg; "
+                    "every m = 1..max_m x 8 implementations x {all unit impulses (m <= bound) or sampled impulses, 2 constants, resonant vectors (all j for m<=256), dynamic range, 3 seeded dense}; dispatch API x cfg; tables with a built-in buffer area beyond 4 GiB (4 constructors x m in {8, 65536}); "
                     "each case run twice (bit-identical) with the table hashed before/after; non-trivial when m > 1; distinct = distinct case ids",
                     true, ex);
 }
